@@ -164,6 +164,8 @@ class IntegralMonitor:
             g = float(got[j])
             empty = not any(m > 0 for m in mu)
             ctx.hit(f"piece:{kind}:{'empty-set' if empty else 'tie' if (e_lo != e_hi and not math.isnan(e)) else 'plain'}")
+            if not empty and sum(1 for m in mu if m == max(mu)) >= 2:
+                ctx.hit(f"piece:{kind}:maximum attained at several sample points")
             if math.isnan(e) != math.isnan(g):
                 ctx.violation(f"{kind}: NaN result does not coincide with an all-zero sampled membership", dict(case, row=j, all_zero=empty), e, g)
                 continue
@@ -294,6 +296,11 @@ def run(ctx):
                 elif what == "range":
                     spec = dict(spec, maximum=spec["maximum"] + 0.5)
                 ctx.hit(f"event:reuse after {what} change")
+        # a flat set over the whole range at an even resolution: every point is a maximum and two sample points halve the area equally
+        for i, rnd in ctx.cases("plateau", 4):
+            t = fl.Rectangle("flat", -1.0, 3.0, [1.0, 0.5][i % 2])
+            for k in INTEGRAL:
+                getattr(fl, k)([10, 4][i // 2]).defuzzify(t, -1.0, 3.0)
         # plain terms given directly, as the unit tests do
         for i, rnd in ctx.cases("plain", ctx.scale(40, 800)):
             t = F.G.build_term(fl, F.G.shape_term(rnd, "t", -1.0, 1.0, kind=rnd.choice(["Triangle", "Trapezoid", "Gaussian", "Rectangle", "Bell"])))
@@ -334,8 +341,12 @@ def run(ctx):
         reach.report(ctx)
     for k in INTEGRAL:
         ctx.require(f"hook:{k}.defuzzify", f"calls:{k}:batch", f"calls:{k}:single", f"piece:{k}:empty-set", f"piece:{k}:plain")
-    for k in ("Bisector", "MeanOfMaximum", "SmallestOfMaximum", "LargestOfMaximum"):
+    # (SOM / LOM: the piece that matters is a maximum attained at several points; a *near*-tie among candidates - what "tie"
+    # counts for them - is rare by nature and not required)
+    for k in ("Bisector", "MeanOfMaximum"):
         ctx.require(f"piece:{k}:tie")
+    for k in ("MeanOfMaximum", "SmallestOfMaximum", "LargestOfMaximum"):
+        ctx.require(f"piece:{k}:maximum attained at several sample points")
     ctx.require("law:SOM<=MOM<=LOM", "law:batch==per-set", "law:centroid-translation", "resolution:1", "resolution:1000", "event:reuse after resolution change", "event:reuse after degrees change")
 
 
